@@ -21,7 +21,7 @@ type invrCfg struct {
 	NCb         int  `json:"NCb"`
 	SkipDefault bool `json:"SkipDefault"`
 	SkipHuge    bool `json:"SkipHuge"`
-	UnitMs      int  `json:"UnitMs"`   // one model time unit in milliseconds (default 1000)
+	UnitMs      int  `json:"UnitMs"` // one model time unit in milliseconds (default 1000)
 }
 
 type invrStepJ struct {
